@@ -415,6 +415,17 @@ class MultiSetNode(SequenceNode[HashableCounter[T]], Generic[T]):
     def to_obj(self):
         return HashableCounter(_hashable(n.to_obj()) for n in self)
 
+    def __lt__(self, other):
+        # A multiset can be the key of a mapping (built from a frozenset), and the items of a mapping are sorted
+        if isinstance(other, MultiSetNode):
+            return sorted(self._children.elements()) < sorted(other._children.elements())
+        elif isinstance(other, NullNode):
+            # consistent with NullNode.__lt__: null sorts before everything else
+            return False
+        elif isinstance(other, LeafNode):
+            other = other.object
+        return LeafNode._mixed_type_sort_key(self) < LeafNode._mixed_type_sort_key(other)
+
     @property
     def container_type(self) -> Type[HashableCounter[T]]:
         return HashableCounter
